@@ -76,17 +76,19 @@ type pairState struct {
 	task  *shovel.Task
 
 	// actor
-	inCall        bool
-	calls         int
-	callsHealed   int
-	quietRun      int
-	healBound     int
-	stuckReported bool
-	outcomes      []string // recent outcomes
-	lastErr       string
-	callCommits   []*fakepg.CommitInfo
-	callLostAck   bool
-	callStart     int // step at which current call started
+	inCall         bool
+	calls          int
+	callsHealed    int
+	quietRun       int
+	idle           bool
+	curAtCallStart int64
+	healBound      int
+	stuckReported  bool
+	outcomes       []string // recent outcomes
+	lastErr        string
+	callCommits    []*fakepg.CommitInfo
+	callLostAck    bool
+	callStart      int // step at which current call started
 
 	// oracle state
 	origin        int64 // first block expected to be indexed; -1 unknown
@@ -490,6 +492,16 @@ func (w *World) startGeneration() error {
 		}
 		ps.task = task
 		ps.inCall = false
+		idle := false
+		for _, k := range p.Idle {
+			if k == ps.key {
+				idle = true
+			}
+		}
+		if idle {
+			ps.idle = true
+			continue
+		}
 		w.mu.Lock()
 		w.actorsLive++
 		w.mu.Unlock()
